@@ -82,3 +82,36 @@ resolve = Contract(
 )
 
 CONTRACTS = [resolve, scope_lookup]
+
+# =================================================================================================
+# ExpressionLowerer.lower_identifier: a name denotes its innermost binding (parameter before caller variable), and
+# only a read of a caller VARIABLE marks that name as referenced (C20: a parameter read inside an inlined body must not
+# hide a top-level result of the same spelling; C03-1-style copies: the binding itself is returned, not a fresh copy).
+# =================================================================================================
+def _ident_post(a, res):
+    P, S = a.self.parent.param_values, a.self.parent.signal_refs
+    R_old, R_new = a.old.self.parent.referenced_signal_names, a.self.parent.referenced_signal_names
+    n = a.expr.name
+    inP, inS = z3.Select(P.present, n), z3.Select(S.present, n)
+    k = z3.String("any_name")
+    frame_same = z3.ForAll([k], z3.Select(R_new.member, k) == z3.Select(R_old.member, k))
+    frame_add = z3.ForAll([k], z3.Select(R_new.member, k) == Or(z3.Select(R_old.member, k), k == n))
+    def is_int_of(M):
+        return And(z3.Select(M.isint, n), ops.eq(res, z3.Select(M.ival, n))) if not isinstance(res, SObj) else Not(z3.Select(M.isint, n))
+    return And(Implies(inP, And(frame_same, is_int_of(P))),
+               Implies(And(Not(inP), inS), And(frame_add, is_int_of(S))),
+               Implies(And(Not(inP), Not(inS)), frame_same))
+
+
+ident = Contract(
+    qualname=EL + "lower_identifier",
+    params={"self": ty.TObj("ExpressionLowerer", only=("ExpressionLowerer",)), "expr": ty.TObj("IdentifierExpr", only=("IdentifierExpr",))},
+    ensures=[("innermost binding; only a caller-variable read is recorded as a reference", _ident_post)],
+    uses={"ExpressionLowerer._error": "skip", "IRBuilder.const": "skip", "IRBuilder.allocate_implicit_type": "skip",
+          "opaque.const": "skip", "opaque.allocate_implicit_type": "skip"},
+    dynamic_types={"self": {"parent": ty.TObj("ASTLowerer", only=("ASTLowerer",)), "ir_builder": ty.TOpaque("builder")},
+                   "self.parent": {"param_values": _MAP, "signal_refs": _MAP, "referenced_signal_names": ty.TSet(ty.Str)},
+                   "expr": {"name": ty.Str}},
+    properties=("C15", "C20", "C16"), min_obligations=3, no_replay=True,
+)
+CONTRACTS.append(ident)
